@@ -385,6 +385,19 @@ fn mirror_grid(tier: Tier) -> CaseOut {
                 }
             }
         }
+        // NaN start points (they are in no polytope, and neither is anything computed from them). Start points at the
+        // edge of the f64 range were tried and withdrawn: there the normalised products lose 1e292 in absolute terms
+        // and the summed step overflows to -inf on the unchanged tree, a regime the properties do not speak about.
+        for v in [f64::NAN] {
+            if n == 1 {
+                starts.push(vec![vec![v]]);
+                starts.push(vec![vec![1.0], vec![v]]);
+            } else {
+                starts.push(vec![vec![v, 0.0]]);
+                starts.push(vec![vec![1.0, v]]);
+                starts.push(vec![vec![v, -v]]);
+            }
+        }
         for st in &starts {
             let mut pts = Array2::<f64>::zeros((n, st.len()));
             for (c, p) in st.iter().enumerate() {
@@ -408,6 +421,11 @@ fn mirror_grid(tier: Tier) -> CaseOut {
                             out.violate(Violation::new("mirror_points returned no column", rec()).tag("kind", "mirror").tag("what", "empty"));
                         }
                         for col in sol.axis_iter(ndarray::Axis(1)) {
+                            if col.iter().any(|x| !x.is_finite()) {
+                                // the start points are of ordinary size or NaN: a point with a non-finite coordinate is in no polytope
+                                out.violate(Violation::new(format!("mirror_points returned the non-finite point {:?}", col.to_vec()), rec()).tag("kind", "mirror").tag("what", "nonfinite"));
+                                continue;
+                            }
                             let w: Vec<Q> = col.iter().map(|x| Q::from_f64(*x)).collect();
                             for (a, b) in &rq {
                                 if b - &dot(a, &w) < -Q::from_f64(TAU + 1e-12) {
@@ -434,7 +452,7 @@ pub fn run_c05(tier: Tier) -> Report {
     rep.absorb(wf);
     let tr = rep.coverage.get("transitions").and_then(|v| v.as_u64()).unwrap_or(0);
     rep.set("traces_validated_against_impl", tr);
-    rep.set("bound", format!("the C04 history exploration (<= {} operations) with the cache invariant evaluated on every node of every reached state; mirror_points on an exhaustive grid (1-2 dim polytopes with <= 3 rows, 1-2 start points from a 5-point lattice per axis, n_iterations in {{1,2,8,20}}); the witness-repair branch is driven by every single witness fault (solver point moved 1e-6 / 1e-3 beyond the tightest row, or by +1e3 / -1e2 / +3 in every coordinate, or made NaN) at every LP call of ~400 pruning runs", if tier == Tier::Quick { 3 } else { 4 }));
+    rep.set("bound", format!("the C04 history exploration (<= {} operations) with the cache invariant evaluated on every node of every reached state; mirror_points on an exhaustive grid (1-2 dim polytopes with <= 3 rows, 1-2 start points from a 5-point lattice per axis plus NaN, n_iterations in {{1,2,8,20}}); the witness-repair branch is driven by every single witness fault (solver point moved 1e-6 / 1e-3 beyond the tightest row, or by +1e3 / -1e2 / +3 in every coordinate, or made NaN) and by an 'unbounded' answer (state Feasible without witness above later nodes) at every LP call of ~400 pruning runs", if tier == Tier::Quick { 3 } else { 4 }));
     rep.assume("witness containment tolerance 1e-8 (+1e-12 for the f64 evaluation the library itself performs); 'infeasible' must not be fat (margin 1e-6)");
     rep
 }
